@@ -1,6 +1,6 @@
 (* C04 — executable model of
      algorithm/gaussJordan/gaussJordan.go            (gaussJordan, gaussJordanUpperTriangular, permuteRows)
-     algorithm/gaussJordan/gaussJordan_optimized.go  (the DenseFloat64 twins: same arithmetic, error instead of panic)
+     algorithm/gaussJordan/gaussJordan_optimized.go  (the DenseFloat64 twins: same arithmetic, same error)
      algorithm/backSubstitution/backSubstitution.go
      algorithm/matrixInverse/matrixInverse.go        (plain / UpperTriangular / PositiveDefinite)
      algorithm/determinant/determinant.go            (determinantNaive, determinantPD without LogScale)
@@ -23,8 +23,9 @@ Import ListNotations.
 (* ------------------------------------------------------------------ outcomes *)
 Inductive outcome (T : Type) : Type :=
 | Ok (t : T)
-| ErrSingular     (* DenseFloat64 path: errors.New("system is computationally singular") *)
-| PanicSingular   (* generic path: panic("system is computationally singular") *)
+| ErrSingular     (* both paths at HEAD: errors.New("system is computationally singular") *)
+| PanicSingular   (* generic path BEFORE /repo 74e12ad: panic("system is computationally singular");
+                     no longer produced by any model function, kept so that importers keep compiling *)
 | ErrNotPD        (* cholesky: "matrix is not positive definite" *)
 | ErrPerm         (* PermuteRows/...: "invalid permutation" *)
 | PanicIndex      (* index out of range (PermuteRows lets pi[i] = n through its guard) *)
@@ -213,11 +214,12 @@ Definition gj_ut_core (n : nat) (msk : list bool) (s : st) : core_res :=
   end.
 
 (* gaussJordan.Run(a, x, b, Submatrix{msk}, UpperTriangular{ut}); dense = all of
-   a, x, b are DenseFloat64 (fast path: error) else generic path (panic) *)
+   a, x, b are DenseFloat64 (fast path) else generic path; since /repo 74e12ad BOTH return
+   errors.New("system is computationally singular") at their singular: label *)
 Definition gj_run (dense ut : bool) (n : nat) (msk : list bool) (s : st) : outcome st :=
   match (if ut then gj_ut_core n msk s else gj_core n msk s) with
   | CoreOk s' => Ok s'
-  | CoreSingular => if dense then ErrSingular else PanicSingular
+  | CoreSingular => ErrSingular
   | CoreFuel => OutOfFuel
   end.
 
